@@ -379,6 +379,7 @@ func shutReport(c *Ctx, r *shutRun, pid string) {
 }
 
 func runC11(c *Ctx) {
+	sharedClient(c, "C11")
 	n := 60
 	if !c.Quick() {
 		n = 6000
